@@ -206,6 +206,22 @@ def handle5 (op : String) (a obs : List String) : Option Verdict :=
         !(0 < ms && ms ≤ 2000) || (field obs "closed_after_ms" == "ok" && field obs "error" == "timed_out")),
       ("long_timeout_keeps_connection", !(2000 < ms && ms < 2^62) || field obs "error" == "alive")]
     pure (model, prop)
+  | "builder" =>
+    let path := get a 1
+    -- every builder path hands its parts to quinn unchanged: the bind address (or the pre-bound
+    -- socket), the TLS configuration (ALPN h3 from the default builders) and, where the path
+    -- takes one, the transport configuration (here: idle timeout 700 ms, observed after 2 s)
+    let withTransport := path == "custom_transport" || path == "custom_tls_and_transport" || path == "quic_config"
+    let alpnHex := hex Generated.WEBTRANSPORT_ALPN.toUTF8.toList
+    let model := ["bound=true", "live=established", s!"alpn={alpnHex}",
+      if withTransport then "idle=timed_out" else "idle=alive"]
+    let prop := check [("no_trap", !isTrap obs),
+      ("requested_address_or_socket_bound", field obs "bound" == "true"),
+      ("endpoint_works", field obs "live" == "established"),
+      ("alpn_is_h3", field obs "alpn" == "6833"),
+      ("transport_configuration_applied", !withTransport || field obs "idle" == "timed_out"),
+      ("default_transport_otherwise", withTransport || field obs "idle" == "alive")]
+    some (model, prop)
   | "reload" =>
     let rebind := get a 0 == "true"
     -- `reload_config` swaps the quinn server configuration: connections accepted from then on
